@@ -10,6 +10,7 @@
 -/
 import OtterVerif.Proofs.CacheJoint
 import OtterVerif.Proofs.PolicyFuel
+import OtterVerif.Proofs.PolicyEvicted
 
 namespace OtterVerif.Props.C04Joint
 open OtterVerif OtterVerif.Impl.Policy OtterVerif.Proofs.CacheAgree OtterVerif.Proofs.CacheJoint
@@ -94,6 +95,29 @@ theorem c04_bound_after_every_operation (s : JState) (op : JOp) (h : JInv s.S s.
 theorem c05_policy_only_kills {S : List Nat} {p : Policy} (h : Reach S p) (id old : Nat) (hs : id ∉ S) :
     Dn p (add p id) ∧ Dn p (update p id old) ∧ Dn p (evictNodes p) :=
   ⟨dn_add id (reach_inv h), dn_update old (reach_inv h) hs, dn_evictNodes (reach_inv h)⟩
+
+/-- C06 / C07: **what the table unlinks in reaction to the policy was handed to the eviction callback** — in a joint step an
+    alive node stops being alive only through `evictNode` (the replaced / removed node was retired by the table before its
+    event is replayed): every node `react` drops after an insert, a replacement or a removal is in the policy's callback list -/
+theorem c07_reaction_is_callback {S : List Nat} {p : Policy} {live : List Nat} (h : JInv S p live) :
+    (∀ id key w, id ∉ S → ∀ x ∈ id :: live,
+      x ∉ react (evictNodes (add (mkNode p id key w .alive) id)) (id :: live) →
+      x ∈ (evictNodes (add (mkNode p id key w .alive) id)).evicted) ∧
+    (∀ id old key w, id ∉ S → old ∈ live → ∀ x ∈ id :: live.filter (· != old),
+      x ∉ react (evictNodes (update (mkNode (retire p old) id key w .alive) id old)) (id :: live.filter (· != old)) →
+      x ∈ (evictNodes (update (mkNode (retire p old) id key w .alive) id old)).evicted) ∧
+    (∀ old, old ∈ live → ∀ x ∈ live.filter (· != old),
+      x ∉ react (evictNodes (delete (retire p old) old)) (live.filter (· != old)) →
+      x ∈ (evictNodes (delete (retire p old) old)).evicted) :=
+  ⟨fun id key w hs x hx hd => jinsert_react h id key w hs x hx hd,
+   fun id old key w hs ho x hx hd => jreplace_react h id old key w hs ho x hx hd,
+   fun old ho x hx hd => jdelete_react h old ho x hx hd⟩
+
+/-- C07: an alive node stops being alive only through the callback — for the add event, the update event of a retired
+    predecessor, and the eviction pass -/
+theorem c07_alive_dies_only_by_callback {S : List Nat} {p : Policy} (h : Reach S p) (id old : Nat) (hs : id ∉ S)
+    (hna : (p.node old).st ≠ .alive) : Ek p (add p id) ∧ Ek p (update p id old) ∧ Ek p (evictNodes p) :=
+  ⟨ek_add id (reach_inv h), ek_update old (reach_inv h) hs hna, ek_evictNodes (reach_inv h)⟩
 
 /-! ### non-vacuity: three inserts into a cache of maximum 2, a replacement, a removal -/
 def q0 : Policy := { maximum := 2, windowMaximum := 1, mainProtectedMaximum := 1 }
